@@ -2,6 +2,7 @@
 import os
 from mirlib import *
 from ranges import *
+from shape import index_from
 import factsbuild, r_encclass, r_state, r_effect, r_kernel, scan, r_lane, r_endian
 from paths import loop_heads
 
@@ -26,6 +27,10 @@ MANIFEST = {
             'position accounting, stride-test coverage; R-SCAN acceptance/all-clear/rejection; R-LANE exact lane sets of the SIMD predicates, see '
             'C14-D5..D7, C16-D6), so the families agree wherever those rules decide. Equality of the arithmetic in alternative function bodies (shift_jis_to_euc_jp etc.) and of the SIMD '
             'pack/unpack/swizzle lane arithmetic is numerical and not decided. ' 
+            '(D5) the constant sub-slices of the decode tables that the default / less-slow builds search (data::position over &TABLE[lo..hi]) are extracted '
+            'from MIR, the table is located in its WHATWG index by its contents, and every pointer of every segment must hold the BMP code point its '
+            'table value denotes (a segment that reaches into supplementary-plane or multi-code-point entries would make an unrelated character '
+            'encodable in that configuration only; completeness of the segments is exercised by the existing all-pointer tests and not decided here). '
             '(R-ENDIAN) every code unit the UTF-16LE/BE decoders read from the unaligned byte source (UnalignedU16Slice::at / simd_at) reaches its uses only through the endianness adapter: swap_if_opposite_endian, or simd_byte_swap / swap_bytes on the E::OPPOSITE_ENDIAN branch and unswapped on the other (every region path of every reading body).',
     'note': 'Trusted: rustc const evaluation, mirx, rule library, tests/test_data/*_in.txt + *_in_ref.txt as copies of the WHATWG indexes, the Standard\'s index-pointer rules as transcribed here.',
     'technique': 'exhaustive data-vs-data agreement over const-evaluated statics per feature configuration + sibling comparison of extracted classes + per-family must-pass-through / accounting rules on the iterator kernels and abstract interpretation of the scalar automata',
@@ -228,6 +233,112 @@ def class_profile(f):
     return prof
 
 
+INDEX_FILES = {'big5': 'big5', 'jis0208': 'shift_jis', 'euc-kr': 'euc_kr', 'gb18030': 'gb18030'}
+_IDX_CACHE = {}
+
+
+def indexes():
+    if not _IDX_CACHE:
+        for k, fnm in INDEX_FILES.items():
+            _IDX_CACHE[k] = load_index(fnm)[0]
+    return _IDX_CACHE
+
+
+def align(table):
+    """[(index name, offset)] such that table[i] is the low 16 bits of index[offset + i] for every i (an unmapped pointer may be 0
+    in the table): where in which WHATWG index this decode table sits, found from its contents"""
+    out = []
+    n = len(table)
+    nz = [(i, v) for i, v in enumerate(table) if v][:6]
+    if len(nz) < 3:
+        return out
+    for k, idx in indexes().items():
+        low = [(e[0] & 0xFFFF) if e is not None and len(e) == 1 else (None if e is None else -1) for e in idx]
+        i0, v0 = nz[0]
+        for p0 in [p_ for p_, lv in enumerate(low) if lv == v0]:
+            off = p0 - i0
+            if off < 0 or off + n > len(low):
+                continue
+            if all(low[off + i] == v for i, v in nz) and all((low[off + i] == table[i]) or (low[off + i] is None and table[i] == 0) or low[off + i] == -1
+                                                            for i in range(n)):
+                out.append((k, off))
+    return out
+
+
+def search_segments(rep, f, c):
+    """C17-D5: the default build encodes by searching the decode tables segment by segment (data::position over a constant
+    sub-slice).  A segment may only contain pointers whose index entry is the BMP code point that is searched for: a pointer whose
+    entry is a supplementary-plane character (the table keeps its low 16 bits) or a sequence would make an unrelated BMP character
+    encodable in this configuration only.  Segments and their tables are extracted from MIR; where a table sits in which index is
+    found from its contents."""
+    n = 0
+    aligned = {}
+    for name, b in sorted(f.bodies.items()):
+        r = None
+        for bi, t in b.calls():
+            if (b.callee(t) or '') != 'data::position':
+                continue
+            r = r or Resolver(b)
+            a0 = r.operand(t['args'][0])
+            ix = index_from(a0)
+            if ix is None:
+                # the whole table: &T[..]
+                e_ = strip_ref(a0)
+                while e_[0] in ('deref', 'ref'):
+                    e_ = strip_ref(e_[1])
+                if e_[0] == 'call' and 'index' in (e_[1] or '').rsplit('::', 1)[-1] and len(e_[2]) == 2 and e_[2][1][0] == 'agg' and e_[2][1][1].endswith('RangeFull::RangeFull'):
+                    b_ = strip_ref(e_[2][0])
+                    while b_[0] in ('deref', 'ref'):
+                        b_ = strip_ref(b_[1])
+                    ix = (b_, ('c', 0, 'usize'))
+                else:
+                    continue
+            base = ix[0]
+            if not (base[0] == 'cptr' and '"static"' in base[1]):
+                continue
+            import json as _json
+            tname = _json.loads(base[1]).get('static')
+            tab = table_u16(f, tname)
+            if tab is None:
+                continue
+
+            def const(e):
+                if e[0] == 'c':
+                    return e[1]
+                if e[0] == 'bin' and e[1] in ('Add', 'Sub', 'Mul'):
+                    x, y = const(e[2]), const(e[3])
+                    if x is None or y is None:
+                        return None
+                    return x + y if e[1] == 'Add' else x - y if e[1] == 'Sub' else x * y
+                return None
+            lo = const(ix[1])
+            hi = const(ix[2]) if len(ix) == 3 else len(tab)
+            if lo is None or hi is None or not 0 <= lo <= hi <= len(tab):
+                continue
+            if tname not in aligned:
+                aligned[tname] = align(tab)
+            al = aligned[tname]
+            if len(al) != 1:
+                continue
+            k, off = al[0]
+            idx = indexes()[k]
+            n += 1
+            bad = []
+            seen = set()
+            for i in range(lo, hi):
+                v = tab[i]
+                if v == 0 or v in seen:
+                    continue
+                seen.add(v)
+                e = idx[off + i]
+                if e is None or len(e) != 1 or e[0] != v:
+                    bad.append('pointer %d (U+%s) would be found for U+%04X' % (off + i, '+'.join('%04X' % x for x in e) if e else 'none', v))
+            rep.ob('C17-D5.segment', '%s:%s[%d..%d]' % (name, tname.rsplit('::', 1)[-1], lo, hi), not bad,
+                   'the searched segment of %s (index %s, pointers %d..%d) contains entries that are not the BMP code point their table value denotes: %s'
+                   % (tname, k, off + lo, off + hi, '; '.join(bad[:3])), sp_str(b.blocks[bi]['tsp']), {'index': k, 'pointers': [off + lo, off + hi]}, c)
+    return n
+
+
 def run(rep, facts, tier):
     o = oracles()
     rep.analysed['index_sizes'] = {k: v for k, v in o.items() if k.endswith('_len')}
@@ -250,6 +361,9 @@ def run(rep, facts, tier):
                 rep.ob('C17-D1.single-feature', c, len(present) >= 1, 'no fast table present', None, {'tables': present}, c)
         if c == 'lessslow':
             lessslow_tables(rep, f, c, o)
+        if c in ('default', 'lessslow', 'fast', 'noalloc'):
+            nseg = search_segments(rep, f, c)
+            rep.floor('C17-D5.segment', 'constant search segments over index-aligned decode tables', nseg, {'default': 16, 'noalloc': 16, 'lessslow': 12, 'fast': 11}[c], c)
         if base is not None and c in ('fast', 'lessslow', 'simd', 'noalloc'):
             prof = class_profile(f)
             for k in sorted(base):
